@@ -43,15 +43,21 @@ package file
 
 //@ func ParseFile
 //@   modifies nothing
+//@   loop#0 exhaustive [C06 parse.all]
+//@   loop#1 exhaustive [C06 parse.all]
+//@   loop#2 exhaustive [C06 parse.all]
+//@   loop#1 entered_when [C06 parse.enter] itag(decl) == tagof("*go/ast.GenDecl")
+//@   loop#2 entered_when [C06 parse.enter] itag(spec) == tagof("*go/ast.TypeSpec") && itag(typeSpec.Type) == tagof("*go/ast.StructType")
+//@   loop#3 entered_when [C06 parse.enter] field.Tag != nil
 //@   loop#0 invariant f != nil && astnode(f) && err == nil && (sliceptr(areas) == 0 || (fresh(sliceptr(areas)) && !astnode(sliceptr(areas)))) && areas.ok(areas, len(fs.content(inputPath)))
 //@   loop#0 invariant ast.wf(1, 1 + len(fs.content(inputPath))) && areas.below(areas, ite(rangeindex >= 0, nend(unbox("Int", f.Decls[rangeindex])), 1))
 //@   loop#1 invariant f != nil && astnode(f) && err == nil && genDecl != nil && astnode(genDecl) && (sliceptr(areas) == 0 || (fresh(sliceptr(areas)) && !astnode(sliceptr(areas)))) && areas.ok(areas, len(fs.content(inputPath)))
-//@   loop#1 invariant ast.wf(1, 1 + len(fs.content(inputPath))) && areas.below(areas, npos(genDecl))
-//@   loop#2 invariant f != nil && astnode(f) && err == nil && genDecl != nil && astnode(genDecl) && structDecl != nil && astnode(structDecl) && npos(genDecl) <= npos(structDecl.Fields) && nend(structDecl.Fields) <= nend(genDecl)
+//@   loop#1 invariant ast.wf(1, 1 + len(fs.content(inputPath))) && areas.below(areas, ite(rangeindex >= 0, nend(unbox("Int", genDecl.Specs[rangeindex])), npos(genDecl)))
+//@   loop#2 invariant f != nil && astnode(f) && err == nil && genDecl != nil && astnode(genDecl) && typeSpec != nil && astnode(typeSpec) && structDecl != nil && astnode(structDecl) && npos(typeSpec) <= npos(structDecl.Fields) && nend(structDecl.Fields) <= nend(typeSpec) && npos(genDecl) <= npos(typeSpec) && nend(typeSpec) <= nend(genDecl)
 //@   loop#2 invariant ast.wf(1, 1 + len(fs.content(inputPath))) && (sliceptr(areas) == 0 || (fresh(sliceptr(areas)) && !astnode(sliceptr(areas)))) && areas.ok(areas, len(fs.content(inputPath)))
-//@   loop#2 invariant areas.below(areas, ite(rangeindex >= 0, nend(structDecl.Fields.List[rangeindex]), npos(genDecl)))
-//@   loop#3 invariant f != nil && astnode(f) && err == nil && genDecl != nil && astnode(genDecl) && structDecl != nil && astnode(structDecl) && field != nil && field.Tag != nil && (sliceptr(areas) == 0 || (fresh(sliceptr(areas)) && !astnode(sliceptr(areas))))
-//@   loop#3 invariant ast.wf(1, 1 + len(fs.content(inputPath))) && areas.ok(areas, len(fs.content(inputPath))) && areas.below(areas, npos(field)) && astfield.ok(field, 1, 1 + len(fs.content(inputPath))) && nend(field) <= nend(genDecl)
+//@   loop#2 invariant areas.below(areas, ite(rangeindex >= 0, nend(structDecl.Fields.List[rangeindex]), npos(typeSpec)))
+//@   loop#3 invariant f != nil && astnode(f) && err == nil && genDecl != nil && astnode(genDecl) && typeSpec != nil && astnode(typeSpec) && nend(typeSpec) <= nend(genDecl) && structDecl != nil && astnode(structDecl) && field != nil && field.Tag != nil && (sliceptr(areas) == 0 || (fresh(sliceptr(areas)) && !astnode(sliceptr(areas))))
+//@   loop#3 invariant ast.wf(1, 1 + len(fs.content(inputPath))) && areas.ok(areas, len(fs.content(inputPath))) && areas.below(areas, npos(field)) && astfield.ok(field, 1, 1 + len(fs.content(inputPath))) && nend(field) <= nend(typeSpec)
 //@   loop#3 invariant forall(k Int :: {comments[k]} 0 <= k && k < len(comments) ==> comments[k] != nil)
 //@   ensures [C06 C19 parse.areas] err == nil ==> areas.ok(areas, len(fs.content(inputPath)))
 //@   ensures [C19 parse.fail] (err == nil) <==> parses(fs.content(inputPath))
